@@ -613,6 +613,14 @@ def part_flavours(res, rng, driver, tier):
             sync, a_em, a_state = judge_flavours(res, version, toks, mode)
             if mode != "burst" or h % 3 == 0:
                 add_model(version, toks, sync, a_em, a_state)
+    # long backlogs: hundreds of lines queued before the threaded pump runs at all (a slow callback, a
+    # backlog right after connecting) — nothing may be lost or reordered, whatever the backlog's length
+    for k, length in enumerate([130, 260, 520] if tier == "quick" else [130, 260, 520, 1100, 2300]):
+        version = ["2.2", "2.0", "1.5"][k % 3]
+        hist = G.gen_history(rng, version, length, persist=False, ota=False, sleep=True, malformed=0.05,
+                             bias={"ctl_set": 0, "update": 0, "clock": 0, "metric": 0, "save": 0, "restart": 0})
+        hist = [op for op in hist if op[0] == "L"]
+        judge_flavours(res, version, make_schedule(rng, hist, "burst"), "backlog")
     if driver is not None:
         try:
             model = driver.run(ops)
